@@ -97,9 +97,14 @@ pub trait Tokish: Component + Default + Send + Sync + 'static {
 
 macro_rules! comp {
     ($name:ident, $storage:ty) => {
+        comp!($name, $storage, 0);
+    };
+    // `$pad` extra bytes: components of different sizes (a few are larger than 128 bytes)
+    ($name:ident, $storage:ty, $pad:expr) => {
         pub struct $name {
             pub uid: u64,
             pub val: i64,
+            pub pad: [u8; $pad],
         }
         impl Drop for $name {
             fn drop(&mut self) {
@@ -109,7 +114,7 @@ macro_rules! comp {
         impl Default for $name {
             fn default() -> Self {
                 MINTS.with(|m| m.set(m.get() + 1));
-                $name { uid: DEFAULT_UID, val: 0 }
+                $name { uid: DEFAULT_UID, val: 0, pad: [0; $pad] }
             }
         }
         impl Component for $name {
@@ -118,7 +123,7 @@ macro_rules! comp {
         impl Tokish for $name {
             fn mk(uid: u64, val: i64) -> Self {
                 note_mk(uid);
-                $name { uid, val }
+                $name { uid, val, pad: [0; $pad] }
             }
             fn uid(&self) -> u64 {
                 note_seen(self.uid);
@@ -137,16 +142,16 @@ macro_rules! comp {
 comp!(CV, VecStorage<Self>);
 comp!(CD, DenseVecStorage<Self>);
 comp!(CT, DefaultVecStorage<Self>);
-comp!(CH, HashMapStorage<Self>);
-comp!(CB, BTreeStorage<Self>);
+comp!(CH, HashMapStorage<Self>, 168);
+comp!(CB, BTreeStorage<Self>, 8);
 comp!(FV, FlaggedStorage<Self, VecStorage<Self>>);
-comp!(FD, FlaggedStorage<Self, DenseVecStorage<Self>>);
+comp!(FD, FlaggedStorage<Self, DenseVecStorage<Self>>, 136);
 comp!(FT, FlaggedStorage<Self, DefaultVecStorage<Self>>);
 comp!(FH, FlaggedStorage<Self, HashMapStorage<Self>>);
-comp!(FB, FlaggedStorage<Self, BTreeStorage<Self>>);
+comp!(FB, FlaggedStorage<Self, BTreeStorage<Self>>, 200);
 comp!(GV, DerefFlaggedStorage<Self, VecStorage<Self>>);
 comp!(GD, DerefFlaggedStorage<Self, DenseVecStorage<Self>>);
-comp!(GT, DerefFlaggedStorage<Self, DefaultVecStorage<Self>>);
+comp!(GT, DerefFlaggedStorage<Self, DefaultVecStorage<Self>>, 144);
 comp!(GH, DerefFlaggedStorage<Self, HashMapStorage<Self>>);
 comp!(GB, DerefFlaggedStorage<Self, BTreeStorage<Self>>);
 
